@@ -925,6 +925,7 @@ func Gen(profile string, seed uint64, thorough bool) *Scenario {
 		}
 	}
 	scn := g.base(profile, seed, &b)
+	scn.TZMin = pick(g, 0, 0, -300, 540, 345, -720)
 	if profile == "sie" {
 		for i := range scn.Resources {
 			for k := range scn.Resources[i].Plans {
